@@ -35,6 +35,10 @@ def main():
         chk.ob("FACTS", "EXTRACTION-FAILED", False, "", str(e)[-1500:], nontrivial=False)
         return chk.finish()
     chk = Check(pid, prog, a.tier, seed, info)
+    rep = getattr(prog, "canon_report", None) or {}
+    if any(rep.get(k) for k in ("renamed", "inlined", "new_functions_kept")):
+        chk.extra["canonicalised"] = rep
+        print("NOTE facts canonicalised against tables/functions.json: renamed=%s inlined=%s new functions kept=%s" % (rep.get("renamed"), rep.get("inlined"), rep.get("new_functions_kept")))
     if a.repo:
         os.environ["SFS_CHECK_REPO"] = a.repo
     mod = importlib.import_module(MODULES[pid])
